@@ -11,6 +11,12 @@ CHECKS = {
  "C04": dict(cat="exploration", tech="runtime monitor (recover + address-range + reference-decoder oracle) over systematic mutations of valid packets and random bytes, cap==len inputs",
    text="All 14 decoders run on >1.3M (quick) hostile inputs derived systematically from valid packets (all prefixes, all single-bit flips, length/flag rewrites) and random bytes, each in a slice with cap==len so any over-read is a bounds panic; oracle checks no panic, byte count, field address ranges and acceptance of strict-valid packets.",
    note="no unsafe/cgo in the library, so Go bounds checks make over-reads observable; reference decoder defines 'well-formed'", ref="3/C04"),
+ "C06": dict(cat="exploration", tech="reference-model oracle (MQTT 4.7 matcher + map model) over an exhaustive small scope and random API histories of topics.NewMemProvider()",
+   text="All 779 filters of <=4 levels over {a,b,empty,+,#} x all names of <=4 levels over {a,b,empty} x 3 QoS are decided against the specification matcher on the real topic store (Subscribers and Retained), and thousands of random subscribe/unsubscribe/retain histories are compared with a map model after every operation. Exhaustive for that scope only; histories are sampled.",
+   note="trusted: spec.Match (20 lines from section 4.7); known finding F-C06-1 (empty levels) is recognised by a classifier predicate, anything else is reported", ref="3/C06"),
+ "C13": dict(cat="exploration", tech="list-model oracle over exhaustively enumerated operation sequences and random histories; porcupine linearizability check of concurrent histories",
+   text="Every register/ack/collect sequence up to depth 6 (ids {1,2}) and 5 (ids {1,2,3}) is executed on a fresh real queue and compared with a FIFO list model incl. byte-identity of the copies; long random histories exercise growth and wrap; concurrent histories are checked with porcupine. Bounded exhaustive + sampling.",
+   note="trusted: the 60-line list model; porcupine v1.3.0", ref="3/C13"),
 }
 PENDING = {}
 ALL = ["C%02d" % i for i in range(1, 21)]
